@@ -232,6 +232,26 @@ func c14Token(tc *tokenCase) (string, string) {
 	if rerr != nil || !rd.Equal(tc.ref()) {
 		return "token/ref-decode", sprintf("the encoding %x does not decode to the value under the documented format (%v)", got, rerr)
 	}
+	// the encoding is a function of the VALUE: the same object, its amount changed in place (as the ledger code does
+	// with Sub / Add / Set on the decoded amount), encodes like a fresh object holding the new amount
+	if x.Value != nil {
+		orig := new(big.Int).Set(x.Value)
+		for _, nv := range []*big.Int{new(big.Int).Rsh(orig, 8), new(big.Int).Add(new(big.Int).Lsh(orig, 8), big.NewInt(1)), new(big.Int).Add(orig, big.NewInt(1)), big.NewInt(1), new(big.Int).Lsh(big.NewInt(1), 64), new(big.Int)} {
+			x.Value.Set(nv)
+			r := tc.ref()
+			r.Value = nv
+			want2 := RefEncodeToken(r)
+			var got3 []byte
+			var size3 int
+			if p := noPanic(func() { got3, err = x.Marshal(); size3 = x.Size() }); p != nil {
+				return "token/panic", sprintf("Marshal after an in-place change of the amount panicked: %v", p)
+			}
+			if err != nil || !bytes.Equal(got3, want2) || size3 != len(want2) {
+				return "token/stale-after-in-place-change", sprintf("amount changed in place from %v to %v: Marshal = %x (%v), Size = %d; the documented format gives %x", orig, nv, got3, err, size3, want2)
+			}
+		}
+		x.Value.Set(orig)
+	}
 	return "", ""
 }
 
